@@ -130,7 +130,7 @@ func (s *sim) opWeights() []weighted {
 	w := map[string]int{
 		"create": 22, "markcomplete": 12, "open": 6, "openwrite": 3, "stat": 2,
 		"delete": 3, "ban": 5, "unban": 4, "setmd": 7, "getmd": 2, "delmd": 3,
-		"listmd": 1, "writeatmd": 4, "clean": 2, "createbad": 2,
+		"listmd": 1, "writeatmd": 4, "clean": 3, "createbad": 2,
 	}
 	if incomplete >= 1 {
 		w["markcomplete"] += 8 * incomplete
@@ -271,7 +271,22 @@ func (s *sim) genOp(t *rapid.T) Op {
 			op.Target = rapid.SampledFrom([]int{-1, 100, 101, -50, 1000}).Draw(t, "badtarget")
 		case w < 4:
 			op.Target = 0
-		case w < 8:
+		case w < 14:
+			// exactly the utilisation left after removing one or two of the live blobs:
+			// the stopping rule is then exercised at equality
+			left := m.size()
+			keys := m.keys()
+			for j := 0; j < 2 && len(keys) > 0; j++ {
+				k := keys[unif(t, "cleanvictim", len(keys))]
+				if r := m.blobs[k].reserved; r <= left && (j == 0 || unif(t, "second", 2) == 0) {
+					left -= r
+				}
+			}
+			op.Target = int((left*100 + m.cap - 1) / m.cap)
+			if op.Target > 99 {
+				op.Target = 99
+			}
+		case w < 17:
 			// just below the predicted utilisation, so that few deletions suffice
 			u := int(m.size() * 100 / m.cap)
 			op.Target = u - unif(t, "below", 26)
